@@ -15,6 +15,7 @@ import (
 // as the real adapter does. All calls are appended to the world's boundary log.
 type MockMQ struct {
 	closeEvent *closeEvent // delivered from within Close (see DeliverDuringClose)
+	closeHook  func()      // called from within Close, outside the lock
 	w          *World
 
 	mu        sync.Mutex
@@ -116,7 +117,12 @@ func (m *MockMQ) Close() {
 			}
 		}
 	}
+	hook := m.closeHook
+	m.closeHook = nil
 	m.mu.Unlock()
+	if hook != nil {
+		hook() // runs while the service is stopping: its messaging client is closing
+	}
 	close(tasks)
 	<-quit
 }
